@@ -139,6 +139,22 @@ CLAIMED.update({
     technique="contract-based deductive verification: ghost invocation log, loop invariants, z3"),
 })
 
+CLAIMED.update({
+ "C10": dict(category="proof",
+    text="The INVOCATION arm invokes the endpoint once for an active registration and a fresh request id (ProtocolError "
+         "otherwise); its success and error closures are proved to send exactly one terminal reply with the invocation's "
+         "request id on every path - YIELD, or ERROR(INVOCATION) when send raises SerializationError or "
+         "PayloadExceededError - and to delete the invocation record; INTERRUPT cancels exactly the pending future; the "
+         "three send() implementations (WebSocket, Twisted RawSocket, asyncio RawSocket) are proved against the "
+         "ITransport.send interface contract the closures rely on (only SerializationError / PayloadExceededError / "
+         "TransportLost escape, an error means nothing was written, the announced size limit is respected).",
+    note="Trusted: z3, pyvc, txaio (as_future runs the endpoint, add_callbacks calls success or error exactly once, cancel), "
+         "serializer.serialize may raise any Exception, _message_from_exception's contract (C18), message constructors as "
+         "records. Not covered: the progress closure, encrypted payloads (C20), TransportLost between endpoint return "
+         "and reply (excluded by the statement).",
+    technique="contract-based deductive verification: closure units against an interface contract, z3"),
+})
+
 PENDING_REASON = "contracts for this property are not yet discharged in this snapshot of /verif (build in progress, see DESIGN.md section 8); nothing is claimed"
 
 def main():
